@@ -367,14 +367,25 @@ def mkSeries (v : Variant) (dataLen : Nat) (t0 interval : Option TArg) (rate : O
                          interval := some (.tobj dt u), unit := .ok u }
   pure { t0 := t0ps, dt := dt, rate := hz, unit := u, time := ax }
 
+/-- the factor that turns "samples per duration (in picoseconds)" into the RATE the check compares with.  Intended:
+samples per SECOND (`sampling_rate` is in Hz whatever the axis' unit).  Today's source multiplies with the axis' own
+`_conversion_factor` (`c_fac`): samples per <axis unit> — the same number on seconds axes only (finding 7). -/
+def rateFactor (v : Variant) (u : TimeUnit) : Nat :=
+  match v with
+  | .intended => Generated.factor .s
+  | .current => Generated.factor u
+
+/-- `float(data_len * c_fac) / time.duration`: the one rate that makes `dataLen` samples fill the duration of the axis -/
+def reconcilingRate (v : Variant) (ax : Axis) (dataLen : Nat) : Rat :=
+  F64.fdiv (F64.ofInt ((dataLen : Int) * (rateFactor v ax.unit : Int))) (F64.ofInt ax.dur)
+
 /-- `TimeSeries(data, time=axis, t0=…, time_unit=u)` (no rate/interval/duration override) and a
 read of `.time`.  The length check is the code's: lengths differ and the rate is not
 `float(data_len * c_fac) / duration`. -/
 def mkSeriesFromTime (v : Variant) (ax : Axis) (dataLen : Nat) (t0 : Option TArg) (unit : UArg) :
     Except Err Series := do
   let uo ← checkUnit unit
-  if ax.n ≠ dataLen ∧
-      ax.rate ≠ F64.fdiv (F64.ofInt ((dataLen : Int) * (Generated.factor ax.unit : Int))) (F64.ofInt ax.dur) then
+  if ax.n ≠ dataLen ∧ ax.rate ≠ reconcilingRate v ax dataLen then
     throw .valueError
   let u := uo.getD ax.unit
   let t0ps := match t0 with
@@ -383,6 +394,46 @@ def mkSeriesFromTime (v : Variant) (ax : Axis) (dataLen : Nat) (t0 : Option TArg
   let time ← mkUniform v { length := some dataLen, t0 := some (.tobj t0ps u),
                            interval := some (.tobj ax.dt u), unit := .ok u }
   pure { t0 := t0ps, dt := ax.dt, rate := ax.rate, unit := u, time := time }
+
+/-! ### the length check of `time=` as a predicate, and its tolerance variant (round 4, class L9)
+
+`reconcilingRate v ax m` (above) is the one rate that makes `m` samples fill the duration of the axis.  `lengthCheckIsclose` = numpy's `isclose(a, b)` with its
+defaults (`|a − b| ≤ 1e-8 + 1e-5·|b|`) on the exact values of the two binary64 numbers: the class
+of change "compare up to rounding, not bit for bit", whose reach grows with the length. -/
+
+def ratAbs (q : Rat) : Rat := if q < 0 then -q else q
+
+def lengthCheckIsclose (a b : Rat) : Bool :=
+  decide (ratAbs (a - b) ≤ (1 : Rat) / 100000000 + (1 : Rat) / 100000 * ratAbs b)
+
+/-- `mkSeriesFromTime` with the length check relaxed to `not isclose(rate, reconciling rate)` -/
+def mkSeriesFromTimeTol (v : Variant) (ax : Axis) (dataLen : Nat) (t0 : Option TArg) (unit : UArg) :
+    Except Err Series := do
+  let uo ← checkUnit unit
+  if ax.n ≠ dataLen ∧ lengthCheckIsclose ax.rate (reconcilingRate v ax dataLen) = false then
+    throw .valueError
+  let u := uo.getD ax.unit
+  let t0ps := match t0 with
+    | none => ax.t0
+    | some t => targPs u t
+  let time ← mkUniform v { length := some dataLen, t0 := some (.tobj t0ps u),
+                           interval := some (.tobj ax.dt u), unit := .ok u }
+  pure { t0 := t0ps, dt := ax.dt, rate := ax.rate, unit := u, time := time }
+
+/-- the number an explicit `sampling_rate=` argument is compared as (python compares an int with a float by value) -/
+def rateValue : RArg → Rat
+  | .num v => numToF v
+  | .freq hz => hz
+
+/-- `TimeSeries(data_m, time=axis, sampling_rate=r[, t0][, time_unit])`: the explicit rate is what the length check
+compares with the reconciling rate; an accepted call is the specification `(data_m, t0 | axis.t0, sampling_rate=r)`
+in the given unit (`None` = the axis' unit) -/
+def mkSeriesFromTimeRate (v : Variant) (ax : Axis) (dataLen : Nat) (t0 : Option TArg) (rate : RArg)
+    (unit : UArg) : Except Err Series := do
+  let _ ← checkUnit unit
+  if ax.n ≠ dataLen ∧ rateValue rate ≠ reconcilingRate v ax dataLen then throw .valueError
+  mkSeries v dataLen (some (t0.getD (.tobj ax.t0 ax.unit))) none (some rate) none
+    (match unit with | .none => .ok ax.unit | u => u)
 
 /-! ### live objects: axes built FROM other axes, then changed in place
 
@@ -772,6 +823,11 @@ def handle (args : List String) : String :=
     | some (some ax), some n, some t0, some unit =>
       both fun v => showExcept showSeries (mkSeriesFromTime v ax n t0 unit)
     | _, _, _, _ => "bad-op"
+  | ["series_from_time_rate", ax, n, t0, rate, unit] =>
+    match parseAxis? ax, n.toNat?, parseTArg? t0, parseRArg? rate, parseUArg? unit with
+    | some (some ax), some n, some t0, some (some rate), some unit =>
+      both fun v => showExcept showSeries (mkSeriesFromTimeRate v ax n t0 rate unit)
+    | _, _, _, _, _ => "bad-op"
   | ["freq", f, unit] =>
     match C01.parseNum? f, TimeUnit.ofString? unit with
     | some f, some u => "ok " ++ hex64 (F64.toBits (frequency (numToF f) u))
